@@ -370,7 +370,26 @@ fn spawn_worker() -> Worker {
     let (tx, from) = mpsc::channel::<String>();
     std::thread::spawn(move || {
         let mut st: Option<Live> = None;
-        while let Ok(line) = rx.recv() {
+        loop {
+            // spin briefly before parking: ops arrive back to back
+            let mut got = None;
+            for _ in 0..20000 {
+                match rx.try_recv() {
+                    Ok(l) => {
+                        got = Some(l);
+                        break;
+                    }
+                    Err(mpsc::TryRecvError::Empty) => std::hint::spin_loop(),
+                    Err(mpsc::TryRecvError::Disconnected) => return,
+                }
+            }
+            let line = match got {
+                Some(l) => l,
+                None => match rx.recv() {
+                    Ok(l) => l,
+                    Err(_) => return,
+                },
+            };
             let o = match guarded(|| step(&mut st, &line)) {
                 Some(o) => o,
                 None => {
@@ -401,6 +420,13 @@ impl crate::Executor for Exec {
         if self.w.to.send(line.to_string()).is_err() {
             self.w = spawn_worker();
             return "panic:harness".to_string();
+        }
+        for _ in 0..20000 {
+            match self.w.from.try_recv() {
+                Ok(o) => return o,
+                Err(mpsc::TryRecvError::Empty) => std::hint::spin_loop(),
+                Err(mpsc::TryRecvError::Disconnected) => break,
+            }
         }
         match self.w.from.recv_timeout(std::time::Duration::from_millis(HANG_MS)) {
             Ok(o) => o,
@@ -1241,25 +1267,27 @@ pub fn gen(ops: &mut Vec<String>, seed: u64, thorough: bool) {
     }
     // 3. bounded-exhaustive sequences per start state
     let prefixes: [&[&str]; 4] = [&[], &["Dok", "S", "S"], &["Dok", "S", "S", "Dok"], &["Dok", "S", "S", "Dok", "Xok"]];
-    let depth = 5usize;
-    let total = ALPHA.len().pow(depth as u32);
+    // thorough: depth 4 complete (4 x 9^4) plus every 5th sequence of depth 5; quick: a thin sample of depth 5
+    let plan: &[(usize, usize)] = if thorough { &[(4, 1), (5, 5)] } else { &[(5, 401)] };
     let mut idx = 0usize;
-    for (pi, prefix) in prefixes.iter().enumerate() {
-        for code in 0..total {
-            idx += 1;
-            let stride = if thorough { 1 } else { 401 };
-            if (code + 7 * pi) % stride != 0 {
-                continue;
+    for &(depth, stride) in plan {
+        let total = ALPHA.len().pow(depth as u32);
+        for (pi, prefix) in prefixes.iter().enumerate() {
+            for code in 0..total {
+                idx += 1;
+                if (code + 7 * pi) % stride != 0 {
+                    continue;
+                }
+                let mut seq: Vec<&str> = vec![];
+                let mut c = code;
+                for _ in 0..depth {
+                    seq.push(ALPHA[c % ALPHA.len()]);
+                    c /= ALPHA.len();
+                }
+                let two = idx % 3 == 0;
+                let retry = if idx % 5 == 0 { 2 } else { 1 };
+                exhaustive_case(ops, &mut ex, prefix, &seq, two, retry, if idx % 7 == 0 { 0 } else { 2 });
             }
-            let mut seq: Vec<&str> = vec![];
-            let mut c = code;
-            for _ in 0..depth {
-                seq.push(ALPHA[c % ALPHA.len()]);
-                c /= ALPHA.len();
-            }
-            let two = idx % 3 == 0;
-            let retry = if idx % 5 == 0 { 2 } else { 1 };
-            exhaustive_case(ops, &mut ex, prefix, &seq, two, retry, if idx % 7 == 0 { 0 } else { 2 });
         }
     }
     // user calls and the remaining reply kinds at every point of short sequences from data exchange
